@@ -426,8 +426,17 @@ def run_v1(ctx: C.Ctx):
     rule_features = ctx.rule
     # class families (inheritance) x entry points x histories (c14_family.py)
     from harness.props import c14_family
-    c14_family.run(ctx, v1streams.OFFSET + 2_000_000)
-    ctx.rule = ctx.rule_alias + ' ALSO ' + rule_features + ' ALSO ' + ctx.rule
+    if full is not None:
+        ctx.deadline = time.time() + max(0.0, full - time.time()) * 0.5
+    try:
+        c14_family.run(ctx, v1streams.OFFSET + 2_000_000)
+    finally:
+        ctx.deadline = full
+    rule_family = ctx.rule
+    # positional types (NamedTuple / fixed tuple) x compound damage: too short AND an earlier element bad (c14_pos.py)
+    from harness.props import c14_pos
+    c14_pos.run(ctx, v1streams.OFFSET + 3_000_000)
+    ctx.rule = ctx.rule_alias + ' ALSO ' + rule_features + ' ALSO ' + rule_family + ' ALSO ' + ctx.rule
 
 
 def run_v1_alias(ctx: C.Ctx):
